@@ -11,6 +11,7 @@ import (
 	"path/filepath"
 	"sort"
 	"testing"
+	"time"
 
 	"github.com/rpcpool/yellowstone-faithful/zzverif/vt"
 )
@@ -55,52 +56,65 @@ func TestVerifEpochOps(t *testing.T) {
 				}
 				return "ok"
 			}
-			if pm := vt.Guard(func() {
-				switch op.Op {
-				case "fsWrite":
-					body := fmt.Sprintf("epoch: %d\nversion: %d\n", num(op.Args[1]), num(op.Args[2]))
-					if err := os.WriteFile(path(op.Args[0]), []byte(body), 0o644); err != nil {
-						t.Fatal(err)
+			var pm string
+			finished := make(chan struct{})
+			go func() {
+				defer close(finished)
+				pm = vt.Guard(func() {
+					switch op.Op {
+					case "fsWrite":
+						body := fmt.Sprintf("epoch: %d\nversion: %d\n", num(op.Args[1]), num(op.Args[2]))
+						if err := os.WriteFile(path(op.Args[0]), []byte(body), 0o644); err != nil {
+							t.Fatal(err)
+						}
+					case "fsDelete":
+						os.Remove(path(op.Args[0]))
+					case "new":
+						cfg, err := LoadConfig(path(op.Args[0]))
+						if err != nil || cfg.Epoch == nil {
+							reply = "loaderror"
+							return
+						}
+						id := len(objs) + 1
+						ep := &Epoch{epoch: *cfg.Epoch, config: cfg}
+						ep.onClose = append(ep.onClose, func() error { closed[id] = true; return nil })
+						objs = append(objs, ep)
+						reply = id
+					case "add":
+						ep := objs[num(op.Args[0])-1]
+						reply = errStr(multi.AddEpoch(ep.Epoch(), ep), "exists")
+					case "remove":
+						reply = errStr(multi.RemoveEpoch(uint64(num(op.Args[0]))), "notfound")
+					case "replace":
+						ep := objs[num(op.Args[0])-1]
+						reply = errStr(multi.ReplaceEpoch(ep.Epoch(), ep), "notfound")
+					case "replaceOrAdd":
+						ep := objs[num(op.Args[0])-1]
+						reply = errStr(multi.ReplaceOrAddEpoch(ep.Epoch(), ep), "error")
+					case "removeByFile":
+						n, err := multi.RemoveEpochByConfigFilepath(path(op.Args[0]))
+						if err != nil {
+							reply = -1
+						} else {
+							reply = int(n)
+						}
+					case "hasSameHash":
+						reply = fmt.Sprint(multi.HasEpochWithSameHashAsFile(path(op.Args[0])))
+					case "has":
+						reply = fmt.Sprint(multi.HasEpoch(uint64(num(op.Args[0]))))
+					default:
+						t.Fatalf("unknown op %q", op.Op)
 					}
-				case "fsDelete":
-					os.Remove(path(op.Args[0]))
-				case "new":
-					cfg, err := LoadConfig(path(op.Args[0]))
-					if err != nil || cfg.Epoch == nil {
-						reply = "loaderror"
-						return
-					}
-					id := len(objs) + 1
-					ep := &Epoch{epoch: *cfg.Epoch, config: cfg}
-					ep.onClose = append(ep.onClose, func() error { closed[id] = true; return nil })
-					objs = append(objs, ep)
-					reply = id
-				case "add":
-					ep := objs[num(op.Args[0])-1]
-					reply = errStr(multi.AddEpoch(ep.Epoch(), ep), "exists")
-				case "remove":
-					reply = errStr(multi.RemoveEpoch(uint64(num(op.Args[0]))), "notfound")
-				case "replace":
-					ep := objs[num(op.Args[0])-1]
-					reply = errStr(multi.ReplaceEpoch(ep.Epoch(), ep), "notfound")
-				case "replaceOrAdd":
-					ep := objs[num(op.Args[0])-1]
-					reply = errStr(multi.ReplaceOrAddEpoch(ep.Epoch(), ep), "error")
-				case "removeByFile":
-					n, err := multi.RemoveEpochByConfigFilepath(path(op.Args[0]))
-					if err != nil {
-						reply = -1
-					} else {
-						reply = int(n)
-					}
-				case "hasSameHash":
-					reply = fmt.Sprint(multi.HasEpochWithSameHashAsFile(path(op.Args[0])))
-				case "has":
-					reply = fmt.Sprint(multi.HasEpoch(uint64(num(op.Args[0]))))
-				default:
-					t.Fatalf("unknown op %q", op.Op)
-				}
-			}); pm != "" {
+				})
+			}()
+			select {
+			case <-finished:
+			case <-time.After(5 * time.Second):
+				// the operation never returned (it still holds or waits for the epoch-set lock): nothing more can be executed
+				out.Emit(eoObs{Op: op.Op, Args: op.Args, Reply: "hang", Numbers: []uint64{}, Closed: []int{}})
+				return
+			}
+			if pm != "" {
 				reply = "panic: " + pm
 			}
 			o := eoObs{Op: op.Op, Args: op.Args, Reply: reply, Numbers: multi.GetEpochNumbers(), Closed: []int{}}
